@@ -210,8 +210,29 @@ fn side_of(s: &str) -> Side {
     }
 }
 
+/// Client order ids of the running scenario: request id -> the request whose client order id it bears.
+/// Every odd scenario lets neighbouring requests for DIFFERENT instruments share one client order id
+/// (legitimate: an order is identified by exchange, instrument and client order id); the strategy id
+/// stays unique per request and is what the scripted client and the projection identify a request by.
+static SHARED_CID: Mutex<Option<HashMap<i64, i64>>> = Mutex::new(None);
+
+fn share_cids(n: usize, reqs: &[Req]) -> usize {
+    let mut m = HashMap::new();
+    if n % 2 == 1 {
+        for w in reqs.windows(2) {
+            if w[0].inst != w[1].inst && !m.contains_key(&w[0].id) {
+                m.insert(w[1].id, w[0].id);
+            }
+        }
+    }
+    let shared = m.len();
+    *SHARED_CID.lock().unwrap() = Some(m);
+    shared
+}
+
 fn cid(id: i64) -> ClientOrderId {
-    ClientOrderId::new(format!("c{id}"))
+    let bearer = SHARED_CID.lock().unwrap().as_ref().and_then(|m| m.get(&id).copied()).unwrap_or(id);
+    ClientOrderId::new(format!("c{bearer}"))
 }
 fn strategy(id: i64) -> StrategyId {
     StrategyId::new(format!("s{id}"))
@@ -343,11 +364,11 @@ fn emit_line(n: usize, at: u64, event: &AccountStreamEvent) -> Value {
     };
     l["kex"] = Value::from(key.exchange.index());
     l["inst"] = Value::from(key.instrument.index());
-    let Some(id) = un('c', key.cid.0.as_str()) else {
-        return anomaly(n, at, format!("event for a client order id no request carried: {}", key.cid.0));
+    let Some(id) = un('s', key.strategy.0.as_str()) else {
+        return anomaly(n, at, format!("event for a strategy no request carried: {}", key.strategy.0));
     };
-    if key.strategy != strategy(id) {
-        return anomaly(n, at, format!("event for c{id} carries strategy {} instead of s{id}", key.strategy.0));
+    if key.cid != cid(id) {
+        return anomaly(n, at, format!("event for request {id} (s{id}) carries client order id {} instead of {}", key.cid.0, cid(id).0));
     }
     l["id"] = Value::from(id);
     l["k"] = Value::from(if l["err"] == "timeout" { "timeout" } else { "resp" });
@@ -365,8 +386,8 @@ struct ScriptedClient {
 }
 
 impl ScriptedClient {
-    fn script(&self, cid: &ClientOrderId) -> Option<Req> {
-        self.scripts.lock().unwrap().get(cid.0.as_str()).cloned()
+    fn script(&self, strategy: &StrategyId) -> Option<Req> {
+        self.scripts.lock().unwrap().get(strategy.0.as_str()).cloned()
     }
 }
 
@@ -417,7 +438,7 @@ impl ExecutionClient for ScriptedClient {
             strategy: request.key.strategy.clone(),
             cid: request.key.cid.clone(),
         };
-        let script = self.script(&key.cid);
+        let script = self.script(&key.strategy);
         wait(&script).await;
         let r = script.expect("scripted");
         UnindexedOrderResponseCancel {
@@ -441,7 +462,7 @@ impl ExecutionClient for ScriptedClient {
             cid: request.key.cid.clone(),
         };
         let RequestOpen { side, price, quantity, kind, time_in_force } = request.state;
-        let script = self.script(&key.cid);
+        let script = self.script(&key.strategy);
         wait(&script).await;
         let r = script.expect("scripted");
         Order {
@@ -501,6 +522,7 @@ struct Stats {
     no_timeout_scenarios: usize,
     late_responses: usize,
     stalled_over: usize,
+    shared_cid_requests: usize,
 }
 
 async fn run_scenario(n: usize, scn: &Scenario, out: &mut Out, st: &mut Stats) {
@@ -509,8 +531,9 @@ async fn run_scenario(n: usize, scn: &Scenario, out: &mut Out, st: &mut Stats) {
     let map = generate_execution_instrument_map(&instruments(), EXCHANGE).expect("single-exchange map");
     let client = ScriptedClient::default();
     for r in &scn.reqs {
-        client.scripts.lock().unwrap().insert(format!("c{}", r.id), r.clone());
+        client.scripts.lock().unwrap().insert(format!("s{}", r.id), r.clone());
     }
+    st.shared_cid_requests += share_cids(n, &scn.reqs);
     let (req_tx, req_rx) = mpsc_unbounded::<ExecutionRequest>();
     let indexer = AccountEventIndexer::new(Arc::new(map));
     let mut snapshot_due = false;
@@ -813,7 +836,7 @@ async fn main() {
                "scripted_shutdowns": st.shutdowns_scripted, "requests_dropped_by_shutdown": st.dropped_by_shutdown,
                "max_outstanding": st.max_outstanding, "anomalies": st.anomalies,
                "stalls": st.stalls, "requests_due_inside_a_stall": st.stalled_over,
-               "built_with_init": st.built_with_init, "init_snapshot_forwarded_first": st.snapshots_first,
+               "built_with_init": st.built_with_init, "requests_sharing_a_client_order_id": st.shared_cid_requests, "init_snapshot_forwarded_first": st.snapshots_first,
                "no_timeout_scenarios": st.no_timeout_scenarios, "no_timeout_responses_after_long_delay": st.late_responses,
                "accepted_requests_never_answered_because_manager_died": st.never_answered})
     );
